@@ -450,8 +450,11 @@ def batch(cid, tier):
                 submit(next_thorough())
         try:
             while pending:
-                patience_s = int(getattr(check, "RUN_TIMEOUT_S",
-                                         RUN_TIMEOUT_S)) * 4 + 60
+                # (a hang is the business of the watchdog of each run; this
+                # one only gives up on the pool, and a chunk may hold
+                # several runs that use up their whole allowance)
+                patience_s = (int(getattr(check, "RUN_TIMEOUT_S",
+                                          RUN_TIMEOUT_S)) * 3 + 60) * 10
                 done, _ = cf.wait(pending, timeout=patience_s,
                                   return_when=cf.FIRST_COMPLETED)
                 if not done:
